@@ -67,6 +67,37 @@ def add_asserts(tree: ast.Module) -> None:
     ast.fix_missing_locations(tree)
 
 
+def strip_annotations(tree: ast.Module) -> None:
+    for n in ast.walk(tree):
+        if isinstance(n, ast.FunctionDef):
+            n.returns = None
+            for a in n.args.posonlyargs + n.args.args + n.args.kwonlyargs:
+                a.annotation = None
+            if n.args.vararg:
+                n.args.vararg.annotation = None
+            if n.args.kwarg:
+                n.args.kwarg.annotation = None
+
+
+def reorder_defs(tree: ast.Module) -> None:
+    """Reverse the order of methods inside every class, and of consecutive top-level function definitions."""
+    for n in ast.walk(tree):
+        if isinstance(n, ast.ClassDef):
+            idx = [i for i, x in enumerate(n.body) if isinstance(x, ast.FunctionDef)]
+            fns = [n.body[i] for i in idx][::-1]
+            for i, f in zip(idx, fns):
+                n.body[i] = f
+    body = tree.body
+    i = 0
+    while i < len(body):
+        j = i
+        while j < len(body) and isinstance(body[j], ast.FunctionDef) and not body[j].decorator_list:
+            j += 1
+        if j - i > 1:
+            body[i:j] = body[i:j][::-1]
+        i = max(j, i + 1)
+
+
 def build(kind: str, dest: Path) -> None:
     shutil.copytree(PKG, dest / "incomplete_cooperative", ignore=shutil.ignore_patterns("__pycache__"))
     for p in (dest / "incomplete_cooperative").rglob("*.py"):
@@ -77,13 +108,17 @@ def build(kind: str, dest: Path) -> None:
             rename_locals(tree)
         elif kind == "asserts":
             add_asserts(tree)
+        elif kind == "noannot":
+            strip_annotations(tree)
+        elif kind == "reorder":
+            reorder_defs(tree)
         p.write_text(ast.unparse(tree) + "\n")
 
 
 def main() -> int:
     kinds = sys.argv[1:] or ["all"]
     if kinds == ["all"]:
-        kinds = ["reformat", "rename", "asserts"]
+        kinds = ["reformat", "rename", "asserts", "reorder"]
     props = [json.loads(l)["id"] for l in (VERIF / "properties.jsonl").read_text().splitlines() if l.strip()]
     bad = 0
     for kind in kinds:
